@@ -695,6 +695,8 @@ public:
       FO["off"] = (int64_t)L.getFieldOffset(I);
       if (!FD->getType()->isIncompleteType())
         FO["bits"] = (int64_t)Ctx.getTypeSize(FD->getType());
+      if (FD->isBitField())
+        FO["bw"] = (int64_t)FD->getBitWidthValue(Ctx);
       Fields.push_back(std::move(FO));
       ++I;
     }
